@@ -349,9 +349,12 @@ class ImagesRoundTrip(Contract):
         E.assume(no_clash(f1, f2) if shared else no_clash(f1, f3))
         images = E.models.new_dict("images")
         c1 = E.models.new_dict("images[V1]")
-        c1.entries.append(Entry(A, True, ListSet([i1, i2] if shared else [i1])))
+        # the writer only ITERATES a cell, so a list in a chosen order stands for the set under that iteration order (which a native
+        # replay cannot force on a real set: it depends on object addresses)
+        cell_rev = bool(shared) and E.decide(E.fresh("first_cell_iterated_in_reverse", z3.BoolSort()))
+        c1.entries.append(Entry(A, True, ([i2, i1] if cell_rev else [i1, i2]) if shared else [i1]))
         c2 = E.models.new_dict("images[V2]")
-        c2.entries.append(Entry(A, True, ListSet([i3])))
+        c2.entries.append(Entry(A, True, [i3]))
         order = [(V1, c1), (V2, c2)]
         rev = E.decide(E.fresh("variants_reversed", z3.BoolSort()))
         if rev:
@@ -359,7 +362,7 @@ class ImagesRoundTrip(Contract):
         for k, v in order:
             images.entries.append(Entry(k, True, v))
         m.fields["images"] = images
-        return {"m": m, "m2": m2, "V1": V1, "V2": V2, "A": A, "f1": f1, "f2": f2, "f3": f3, "shared": shared, "cf": cf, "rev": rev,
+        return {"m": m, "m2": m2, "V1": V1, "V2": V2, "A": A, "f1": f1, "f2": f2, "f3": f3, "shared": shared, "cf": cf, "rev": rev, "cell_rev": cell_rev,
                 "data": E.models.new_dict("doc")}
 
     def call(self, E, st):
@@ -408,6 +411,7 @@ class ImagesRoundTrip(Contract):
             inp[k] = dict((a, val(v)) for a, v in st[k].items()) if st[k] is not None else None
         inp["shared"] = bool(st["shared"])
         inp["reversed"] = bool(st["rev"])
+        inp["cell_reversed"] = bool(st["cell_rev"])
         return inp
 
     def sample_inputs(self, rng):
@@ -420,7 +424,9 @@ class ImagesRoundTrip(Contract):
         cf = {"id": "F-21-20141201.0", "type": "production", "date": "20141201", "respin": 0}
         for shared in (True, False):
             yield {"V1": "Server", "V2": "Client", "A": "x86_64", "cf": cf, "f1": img("a.iso"), "f2": img("b.iso", disc_number=2),
-                   "f3": img("a.iso", disc_number=3, size=5), "shared": shared, "reversed": True}
+                   "f3": img("a.iso", disc_number=3, size=5), "shared": shared, "reversed": True, "cell_reversed": True}
+            yield {"V1": "Server", "V2": "Client", "A": "x86_64", "cf": cf, "f1": img("b.iso"), "f2": img("a.iso", disc_number=2),
+                   "f3": img("a.iso", disc_number=3, size=5), "shared": shared, "cell_reversed": True}
             yield {"V1": "Server", "V2": "Client", "A": "x86_64", "cf": cf, "f1": img("a.iso"), "f2": img("b.iso", disc_number=2),
                    "f3": img("a.iso", disc_number=3, size=5), "shared": shared}
             yield {"V1": "Server", "V2": "Client", "A": "s390x", "cf": cf, "f1": img("b.iso", unified=True),
@@ -448,8 +454,11 @@ class ImagesRoundTrip(Contract):
                 im.validate()
         except Exception:
             return ("skip", None), None
-        cells = [(inputs["V1"], {inputs["A"]: set(ims if inputs["shared"] else ims[:1])}),
-                 (inputs["V2"], {inputs["A"]: set(ims[:1] if inputs["shared"] else ims[1:])})]
+        first = list(ims if inputs["shared"] else ims[:1])
+        if inputs.get("cell_reversed"):
+            first.reverse()
+        cells = [(inputs["V1"], {inputs["A"]: first}),
+                 (inputs["V2"], {inputs["A"]: list(ims[:1] if inputs["shared"] else ims[1:])})]
         m.images = dict(reversed(cells) if inputs.get("reversed") else cells)
         data = {}
 
